@@ -41,6 +41,7 @@ CONVENTIONS = {
     (1, "c"): HORTON2_CONVENTIONS[(1, "c")],
     (2, "p"): HORTON2_CONVENTIONS[(2, "p")],
     (3, "p"): HORTON2_CONVENTIONS[(3, "p")],
+    (4, "p"): HORTON2_CONVENTIONS[(4, "p")],
 }
 
 
